@@ -6,7 +6,7 @@ export GOFLAGS=-mod=mod GOPROXY=off GOSUMDB=off GOTOOLCHAIN=local
 wt=$1; name=$2; prop=$3; pkg=$4; tname=$5; shift 5
 src=$wt/out/$name
 cd $wt || exit 2
-git checkout -q -- . 2>/dev/null; find . -name 'zz_contracts_verif.go' -delete; rm -f $pkg/zz_demo_test.go
+git checkout -q -- . 2>/dev/null; find . -name 'zz_*contracts_verif.go' -delete; rm -f $pkg/zz_demo_test.go
 git apply --check $src/patch.diff || { echo "PATCH DOES NOT APPLY"; exit 3; }
 git apply $src/patch.diff
 go build ./... || { echo "DOES NOT BUILD"; exit 4; }
